@@ -44,6 +44,8 @@ from .constants import OPEN_REQUEST_PTY_FAILED, OPEN_REQUEST_SESSION_FAILED
 
 from .editor import SSHLineEditorChannel, SSHLineEditorSession
 
+from .forward import SSHForwarder
+
 from .logging import SSHLogger
 
 from .misc import ChannelOpenError, EnvMap, MaybeAwait, ProtocolError
@@ -502,6 +504,10 @@ class SSHChannel(Generic[AnyStr], SSHPacketHandler):
                 session = cast(SSHSession[AnyStr], result)
 
             if not self._conn:
+                if isinstance(session, SSHForwarder):
+                    # Release the destination the forwarder already opened
+                    session.close()
+
                 raise ChannelOpenError(OPEN_CONNECT_FAILED,
                                        'SSH connection closed')
 
